@@ -1,5 +1,5 @@
 (* allow-axioms:  *)
-From RRE Require Import Base.Sx Generated.Consts Model.ReteAgenda Model.Incremental Proofs.IncrementalProofs Proofs.IncrementalViewsProofs.
+From RRE Require Import Base.Sx Generated.Consts Model.ReteAgenda Model.Incremental Proofs.IncrementalProofs Proofs.IncrementalViewsProofs Proofs.IncrementalOnceProofs.
 Open Scope Z_scope.
 From RRE Require Import Properties.C06.
 Check (C06_fires_only_if_true : forall x x' out,
@@ -21,3 +21,19 @@ Check (C06_retracted_in_no_view : forall sorted rs ops f,
 Check (C06_handles_unique : forall sorted rs ops,
   let x := exec sorted {| e_ := init rs; matched := [] |} ops in
   NoDup (map f_h (wm (e_ x))) /\ forall h, In h (map f_h (wm (e_ x))) -> 1 <= h < next_h (e_ x)).
+Check (C06_fire_exactly_once : forall rs ops x' fs,
+  forallb r_noloop rs = true -> inert rs = true -> NoDup (map r_name rs) ->
+  let x0 := {| e_ := init rs; matched := [] |} in
+  let x := exec false x0 ops in
+  hist_ok rs x0 ops -> fits rs x -> fire_all x = (x', fs) ->
+  NoDup (map fi_rule fs) /\
+  (forall n, In n (map fi_rule fs) <->
+             ~ In n (fired x) /\ exists r f, In r rs /\ r_name r = n /\ In f (wm (e_ x)) /\ Sat r f) /\
+  fired x' = fired x ++ map fi_rule fs /\ wm (e_ x') = wm (e_ x)).
+Check (C06_first_fire_exactly_once : forall rs ops x' fs,
+  forallb r_noloop rs = true -> inert rs = true -> NoDup (map r_name rs) ->
+  forallb is_edit ops = true ->
+  let x := exec false {| e_ := init rs; matched := [] |} ops in
+  fits rs x -> fire_all x = (x', fs) ->
+  NoDup (map fi_rule fs) /\
+  forall n, In n (map fi_rule fs) <-> exists r f, In r rs /\ r_name r = n /\ In f (wm (e_ x)) /\ Sat r f).
